@@ -58,7 +58,9 @@ class DensityEstimator(ABC):
             fun=self.__hdi_cost,
             x0=simplex[0, :],
             method="Nelder-Mead",
-            options={"initial_simplex": simplex},
+            # the stopping tolerances follow the scale of the data, so that
+            # the search is converged equally well at any scale
+            options={"initial_simplex": simplex, "xatol": 1e-6 * w, "fatol": 1e-12},
             args=(fraction, weight),
         )
         c, w = result.x
